@@ -91,6 +91,11 @@ func Generate(ctx context.Context, wd string, env []string, patterns []string, o
 	generated := make([]GenerateResult, len(pkgs))
 	for i, pkg := range pkgs {
 		generated[i].PkgPath = pkg.PkgPath
+		if len(pkg.GoFiles) == 0 {
+			// Nothing but test files (or nothing at all) in this directory:
+			// no injectors, nothing to generate.
+			continue
+		}
 		outDir, err := detectOutputDir(pkg.GoFiles)
 		if err != nil {
 			generated[i].Errs = append(generated[i].Errs, err)
